@@ -329,3 +329,63 @@ Print Assumptions C10_infinity_refused.
 Example C10_foreign_point_exists :
   contains_point k1_p 0 3 1 2 = true /\ contains_point k1_p k1_a k1_b 1 2 = false.
 Proof. exact foreign_point_example. Qed.
+
+(* ================================ presentations and histories ================================ *)
+From PV Require Import Model.PresentC10 Proofs.PresentC10P.
+
+(* a SEC blob is decoded alike whether it arrives as bytes, bytearray, read-only or writable memoryview
+   (sec_to_public_pair, Key.from_sec, is_sec_compressed) *)
+Theorem C10_sec_blob_presentation_independent :
+  forall (p a b : Z) (k1 k2 : blob_kind) (d : bytes) (strict : bool),
+  sec_to_public_pair_arg p a b (mk_blob k1 d) strict = sec_to_public_pair_arg p a b (mk_blob k2 d) strict /\
+  key_from_sec_arg p a b (mk_blob k1 d) = key_from_sec_arg p a b (mk_blob k2 d) /\
+  is_sec_compressed_arg (mk_blob k1 d) = is_sec_compressed_arg (mk_blob k2 d).
+Proof. exact sec_blob_presentation_independent. Qed.
+Print Assumptions C10_sec_blob_presentation_independent.
+
+(* a DER blob is decoded alike as bytes and as bytearray; a memoryview is refused up front with
+   AttributeError (str-method `startswith`), never decoded differently *)
+Theorem C10_der_blob_presentation : forall (d : bytes) (broken : bool),
+  sigdecode_der_arg (mk_blob Bk_bytearray d) broken = sigdecode_der_arg (mk_blob Bk_bytes d) broken /\
+  sigdecode_der_arg (mk_blob Bk_bytes d) broken = sigdecode_der d broken /\
+  sigdecode_der_arg (mk_blob Bk_mv_ro d) broken = Raise E_ATTR /\
+  sigdecode_der_arg (mk_blob Bk_mv_rw d) broken = Raise E_ATTR.
+Proof. exact der_blob_presentation. Qed.
+Print Assumptions C10_der_blob_presentation.
+
+(* integers are taken alike as int, int subclass or bool (secret exponent, r, s, coordinates) *)
+Theorem C10_int_presentation_independent :
+  forall (k1 k2 k3 k4 : int_kind) (order v w : Z) (c : bool),
+  key_private_arg order (mk_int k1 v) = key_private_arg order (mk_int k2 v) /\
+  sigencode_der_arg (mk_int k1 v) (mk_int k3 w) = sigencode_der_arg (mk_int k2 v) (mk_int k4 w) /\
+  public_pair_to_sec_arg (mk_int k1 v) (mk_int k3 w) c = public_pair_to_sec_arg (mk_int k2 v) (mk_int k4 w) c.
+Proof. exact int_presentation_independent. Qed.
+Print Assumptions C10_int_presentation_independent.
+
+(* history independence: in one process, whatever was decoded before and afterwards and for whichever
+   curves, each call is answered as if it were the only one; in particular the same blob under two curves
+   in either order gets each curve's own answer *)
+Theorem C10_sec_history_independent : forall (h1 h2 : list sec_call) (c : sec_call),
+  run_sec_history (h1 ++ c :: h2) = run_sec_history h1 ++ eval_sec_call c :: run_sec_history h2 /\
+  run_from_sec_history (h1 ++ c :: h2) = run_from_sec_history h1 ++ eval_from_sec_call c :: run_from_sec_history h2.
+Proof. exact sec_history_independent. Qed.
+Print Assumptions C10_sec_history_independent.
+
+Theorem C10_sec_two_curves_both_orders : forall c1 c2 : sec_call,
+  run_sec_history [c1; c2] = [eval_sec_call c1; eval_sec_call c2] /\
+  run_sec_history [c2; c1] = [eval_sec_call c2; eval_sec_call c1] /\
+  run_sec_history [c1; c2; c1] = [eval_sec_call c1; eval_sec_call c2; eval_sec_call c1].
+Proof. exact two_curves_both_orders. Qed.
+Print Assumptions C10_sec_two_curves_both_orders.
+
+(* ... and a key that Key.from_sec accepts anywhere in a history lies on the curve OF ITS OWN CALL, with
+   reduced coordinates, its blob being the canonical encoding (no point of another curve leaks in) *)
+Theorem C10_sec_history_accepts_only_own_curve :
+  forall (h : list sec_call) (i : nat) (c : sec_call) (x y : Z) (flag : bool),
+  nth_error h i = Some c ->
+  2 ^ 248 <= sc_p c < 2 ^ 256 -> sc_p c mod 2 = 1 ->
+  nth_error (run_from_sec_history h) i = Some (Ret ((x, y), flag)) ->
+  contains_point (sc_p c) (sc_a c) (sc_b c) x y = true /\ 0 <= x < sc_p c /\ 0 <= y < sc_p c /\
+  public_pair_to_sec (x, y) flag = Ret (ba_data (sc_blob c)).
+Proof. exact history_accepts_only_own_curve. Qed.
+Print Assumptions C10_sec_history_accepts_only_own_curve.
